@@ -25,7 +25,7 @@ Declare Scope F_scope.
 Delimit Scope F_scope with F.
 
 Section Sums.
-Variable K : fops.
+Context {K : fops}.
 Hypothesis KOK : fops_ok K.
 Add Field Kfield : (Kth K KOK).
 Notation "0" := (f0 K). Notation "1" := (f1 K).
@@ -126,5 +126,3 @@ Proof. unfold dot. revert v. induction l as [|a l IH]; intros [|b v]; simpl; try
 
 End Sums.
 
-Arguments sumF {K A} f l.
-Arguments dot {K} u v.
